@@ -29,7 +29,10 @@ def run(ctx):
         worlds.append(cw.render('c07-%d' % i, spec, ORACLES))
     for k, (mode, srt) in enumerate([((False, ''), '-'), ((False, 'clean'), '0'), ((False, ''), '1')]):
         worlds.append(cw.render('c07-big-%d' % k, cw.big_clean_spec(g, mode, srt), ORACLES))
+    for k, (mode, srt) in enumerate([((False, ''), '1'), ((False, 'clean'), '0')]):
+        worlds.append(cw.render('c07-bigml-%d' % k, cw.big_clean_spec(g, mode, srt, lines=12), ORACLES))
     worlds += [cw.render('c07-tie-%d' % k, sp, ORACLES) for k, sp in enumerate(cw.tie_specs())]
+    worlds += [cw.render('c07-eol-%d' % k, sp, ORACLES) for k, sp in enumerate(cw.eol_specs())]
     worlds += cw.junk_worlds('c07')
     worlds += cw.extra_worlds('c07', g, ctx.tier, ORACLES)
     run_suite(ctx, 'clean.C07', worlds, known=known, chunk=200)
